@@ -15,13 +15,17 @@ class Disconnection:
     if not self.is_connected():
       raise gfapy.RuntimeError(
         "Line {} is not connected to a GFA instance".format(self))
-    self._remove_field_backreferences()
-    self._remove_field_references()
-    self._disconnect_dependent_lines()
-    self._remove_nonfield_backreferences()
-    self._remove_nonfield_references()
-    self._gfa._unregister_line(self)
-    self._gfa = None
+    self._disconnecting = True
+    try:
+      self._remove_field_backreferences()
+      self._remove_field_references()
+      self._disconnect_dependent_lines()
+      self._remove_nonfield_backreferences()
+      self._remove_nonfield_references()
+      self._gfa._unregister_line(self)
+      self._gfa = None
+    finally:
+      self._disconnecting = False
 
   def _delete_reference(self, line, key):
     if key not in self._refs: return
@@ -73,12 +77,20 @@ class Disconnection:
   def _remove_backreference(self, ref, k):
     if isinstance(ref, gfapy.Line):
       ref._update_references(self, None, k)
+      ref._disconnect_if_unreferenced_virtual()
     elif isinstance(ref, gfapy.OrientedLine):
       if isinstance(ref.line, gfapy.Line):
         ref.line._update_references(self, None, k)
+        ref.line._disconnect_if_unreferenced_virtual()
     elif isinstance(ref, list):
       for i in range(len(ref)):
        self._remove_backreference(ref[i], k)
+
+  def _disconnect_if_unreferenced_virtual(self):
+    # a placeholder for a line which is not mentioned anymore is dropped
+    if self.virtual and self.is_connected() and not self.all_references \
+        and not getattr(self, "_disconnecting", False):
+      self.disconnect()
 
   def _disconnect_dependent_line(self, ref):
     if isinstance(ref, gfapy.Line):
